@@ -2,6 +2,7 @@ package main
 
 import (
 	"fmt"
+	"go/types"
 	"strings"
 
 	"golang.org/x/tools/go/ssa"
@@ -10,19 +11,21 @@ import (
 func init() {
 	register(&propDef{
 		id: "C04", run: runC04, minOblig: 8,
-		explanation: "Decides the message-splitting and state discipline of the Poly1305 MAC — the part of 'one-shot Sum or any sequence of Write calls gives the same tag' that is visible in code shape — and nothing of the 130-bit arithmetic. (block splitting) mac.Write (assembly-backed build) and macGeneric.Write are interpreted (slices by length) for every buffered offset 0..15 and write lengths 0..50: the bytes handed to the block function are exactly 16*floor((offset+len)/16) bytes, in stream order (the completed 16-byte buffer first, then whole blocks straight from the input, contiguous with what was buffered), every call receives a multiple of 16 bytes, the remainder (offset+len) mod 16 is kept in the buffer, and len(p) is returned; (finalisation) Sum works on a value copy of the accumulator state (receiver-pure by effect analysis), feeds the partial last block of exactly 'offset' bytes when there is one, then finalises with the copy's accumulator and the key's s half; (lifecycle) MAC.Write panics exactly when the MAC was finalised, Sum and Verify finalise, Verify is the constant-time comparison of the expected tag with the computed one, the one-shot Sum is New + Write + Sum and the package-level Verify compares in constant time; (key split) initialize loads r from key[0:16] with the two clamping masks 0x0FFFFFFC0FFFFFFF / 0x0FFFFFFC0FFFFFFC and s from key[16:32], little-endian. NOT decided: the polynomial evaluation modulo 2^130-5 in updateGeneric / the assembly update, finalize's reduction, the padding bit of the short last block.",
-		assumptions: []string{"update/updateGeneric treat a trailing short chunk as the final block", "crypto/subtle.ConstantTimeCompare contract"},
+		explanation: "Decides the message-splitting and state discipline of the Poly1305 MAC — the part of 'one-shot Sum or any sequence of Write calls gives the same tag' that does not need the 130-bit arithmetic — by interpreting the code, with helpers of the package interpreted in place and memory identified by object and struct field (never by the names of locals, parameters or receivers, nor by which function a statement sits in). (block splitting) mac.Write (assembly-backed build) and macGeneric.Write are interpreted (slices by length) for every buffered offset 0..15 and write lengths 0..50: the bytes handed to the block function are exactly 16*floor((offset+len)/16) bytes, in stream order (the completed 16-byte buffer first, then whole blocks straight from the input, contiguous with what was buffered), applied to the receiver's own state, every call receives a multiple of 16 bytes, input bytes are copied into the buffer exactly behind the bytes it already holds, the remainder (offset+len) mod 16 is kept in the buffer, and len(p) is returned; (finalisation) Sum works on a value copy of the accumulator state (receiver-pure by effect analysis), feeds the partial last block buffer[:offset] to that copy when there is one, then finalises into out with the copy's accumulator and its s half; (lifecycle) the API layer is interpreted down to the primitives initialize / implementation Write / implementation Sum / constant-time compare, on symbolic contents: MAC.Write panics exactly when the MAC was finalised and otherwise hands p once to the implementation and returns (len(p), nil); MAC.Sum returns b followed by the tag of the current state, MAC.Verify returns exactly the result of a crypto/subtle.ConstantTimeCompare (or hmac.Equal) of the expected tag with the tag of the current state, both mark the MAC finalised and change nothing else; the one-shot Sum (and sumGeneric) stores into out the tag of a fresh state after initialize(key) and Write(m); the package-level Verify returns exactly the constant-time comparison of *mac with that tag — whether it goes through Sum, through MAC.Verify or through its own copy of the steps; (key split) New(key) is interpreted on concrete key bytes (each single byte set, all ones, a counting pattern): r is key[0:16] little-endian under the clamping masks 0x0FFFFFFC0FFFFFFF / 0x0FFFFFFC0FFFFFFC, s is key[16:32] little-endian, accumulator, buffer offset and finalised flag start at zero. NOT decided: the polynomial evaluation modulo 2^130-5 in updateGeneric / the assembly update, finalize's reduction, the padding bit of the short last block.",
+		assumptions: []string{"update/updateGeneric treat a trailing short chunk as the final block", "crypto/subtle.ConstantTimeCompare contract", "the implementation's Write returns a nil error"},
 	})
-	tech("C04", "flow-sensitive finite-domain interpretation of the block-splitting automaton; receiver-effect analysis of Sum; finite-domain evaluation of the lifecycle guard; constant/offset table for the key split")
+	tech("C04", "flow-sensitive finite-domain interpretation of the block-splitting automaton with object-based memory references; receiver-effect analysis of Sum; interprocedural symbolic interpretation of the API layer (state histories, tag provenance, comparison operands); concrete interpretation of the key split on test keys")
 }
 
 func runC04(c *Ctx) {
 	const pkg = "internal/poly1305"
+	nWrite, nSum := 0, 0
 	for _, name := range []string{"(*mac).Write", "(*macGeneric).Write"} {
 		f := c.fnOpt(pkg, name)
 		if f == nil || len(f.Blocks) == 0 || f.Synthetic != "" {
 			continue // absent in this build, or a promoted-method wrapper around macGeneric's
 		}
+		nWrite++
 		c04Write(c, pkg, name, f)
 	}
 	pur := newPurity()
@@ -31,214 +34,198 @@ func runC04(c *Ctx) {
 		if f == nil || len(f.Blocks) == 0 || f.Synthetic != "" {
 			continue // absent in this build, or a promoted-method wrapper around macGeneric's
 		}
+		nSum++
 		ok, why, at := pur.paramPure(f, 0, 0)
 		var pos poser = f
 		if at != nil {
 			pos = at
 		}
 		c.check(ok, "C04.sum-pure", pkg+"."+name, pos, "finalisation works on a copy of the accumulator", "Sum changes the running state: "+why)
-		// partial block of exactly offset bytes, then finalize
-		bad := ""
-		for o := int64(0); o <= 15; o++ {
-			w := &pathWalker{env: newEnv(), lengths: true, maxSteps: 2000, opaque: map[string]bool{"update": true, "updateGeneric": true, "finalize": true}}
-			offKey := fieldPathIn(f, "offset")
-			w.state = map[string]int64{offKey: o}
-			var evs []string
-			w.onCall = func(w *pathWalker, ci ssa.CallInstruction) string {
-				cc := ci.Common()
-				n := short(calleeName(cc))
-				switch {
-				case strings.HasSuffix(n, "poly1305.update") || strings.HasSuffix(n, "poly1305.updateGeneric"):
-					l, _ := w.env.eval(cc.Args[1])
-					_, isLocal := cc.Args[0].(*ssa.Alloc)
-					evs = append(evs, fmt.Sprintf("update(local=%v,%d)", isLocal, l))
-				case strings.HasSuffix(n, "poly1305.finalize"):
-					evs = append(evs, "finalize")
-				}
-				return ""
-			}
-			if end := w.walk(f.Blocks[0], nil); end != "return" {
-				bad = "evaluation ended with " + end + " " + w.why
-				break
-			}
-			want := "finalize"
-			if o > 0 {
-				want = fmt.Sprintf("update(local=true,%d) finalize", o)
-			}
-			if strings.Join(evs, " ") != want {
-				bad = fmt.Sprintf("offset %d: [%s], expected [%s]", o, strings.Join(evs, " "), want)
-			}
-		}
-		c.check(bad == "", "C04.finalize", pkg+"."+name, f, "the buffered remainder (if any) is the last block, on the local copy, then finalize", bad)
+		c04Finalize(c, pkg, name, f)
 	}
-	// lifecycle
-	if f := c.fn(pkg, "(*MAC).Write"); f != nil {
-		bad := ""
-		for _, v := range []int64{0, 1} {
-			e := newEnv()
-			if e.bindField(f, "MAC", "finalized", v) == 0 {
-				bad = "finalized flag not consulted"
-			}
-			pans, rets, _ := e.reachableExits(f, nil)
-			if v == 1 && (len(pans) == 0 || len(rets) > 0) || v == 0 && len(pans) > 0 {
-				bad = fmt.Sprintf("finalized=%d: panics=%d returns=%d", v, len(pans), len(rets))
-			}
-		}
-		c.check(bad == "", "C04.lifecycle", "(*MAC).Write", f, "panics exactly after Sum or Verify", bad)
+	if nWrite == 0 || nSum == 0 {
+		c.fail("anchor", pkg+".(*macGeneric).Write / Sum", nil, "no implementation of Write / Sum found in the current tree; the rules cannot be evaluated")
 	}
-	for _, name := range []string{"(*MAC).Sum", "(*MAC).Verify"} {
-		f := c.fn(pkg, name)
-		if f == nil {
-			continue
-		}
-		okFin := false
-		for _, st := range storesTo(f, "MAC", "finalized") {
-			if b, isB := constBool(st.Val); isB && b {
-				okFin = true
-			}
-		}
-		sums := calls(f, func(n string) bool { return strings.HasSuffix(n, "poly1305.mac).Sum") || strings.HasSuffix(n, "poly1305.macGeneric).Sum") })
-		c.check(okFin && len(sums) == 1, "C04.lifecycle", name, f, "computes the tag once and marks the MAC finalised", name+" does not finalise the MAC")
-		if name == "(*MAC).Verify" {
-			ctc := callsNamed(f, "crypto/subtle.ConstantTimeCompare")
-			ok := len(ctc) == 1
-			if ok {
-				a := ctc[0].Common().Args
-				isExp := func(v ssa.Value) bool { return v == ssa.Value(f.Params[1]) }
-				isMac := func(v ssa.Value) bool {
-					sl, ok := v.(*ssa.Slice)
-					if !ok {
-						return false
-					}
-					al, ok := sl.X.(*ssa.Alloc)
-					return ok && len(sums) == 1 && sums[0].Common().Args[1] == ssa.Value(al)
-				}
-				ok = (isExp(a[0]) && isMac(a[1]) || isExp(a[1]) && isMac(a[0]))
-				pass := edgesImplying(ctc[0].(*ssa.Call), []int64{0, 1}, func(d int64) bool { return d == 1 })
-				e := newEnv()
-				e.bind(callValue(ctc[0]), 0)
-				for _, r := range returnsOf(f) {
-					if v, okv := e.eval(retVal(r, 0)); !okv || v != 0 {
-						ok = false
-					}
-				}
-				ok = ok && len(pass) >= 0
-			}
-			c.check(ok, "C04.lifecycle", "(*MAC).Verify comparison", f, "constant-time comparison of the expected tag with the computed tag decides the result", "Verify does not return the constant-time comparison of the expected and the computed tag")
-		}
-	}
-	if f := c.fn(pkg, "Verify"); f != nil {
-		ctc := callsNamed(f, "crypto/subtle.ConstantTimeCompare")
-		sm := callsNamed(f, pkg+".Sum")
-		ok := len(ctc) == 1 && len(sm) == 1 && sm[0].Common().Args[1] == ssa.Value(f.Params[1]) && sm[0].Common().Args[2] == ssa.Value(f.Params[2])
-		c.check(ok, "C04.lifecycle", "poly1305.Verify", f, "tag recomputed over (m, key) and compared in constant time", "the package-level Verify does not recompute the tag over the message and key and compare in constant time")
-	}
-	if f := c.fn(pkg, "Sum"); f != nil {
-		nw := callsNamed(f, pkg+".New")
-		wr := calls(f, func(n string) bool { return strings.HasSuffix(n, "poly1305.MAC).Write") })
-		sm := calls(f, func(n string) bool { return strings.HasSuffix(n, "poly1305.MAC).Sum") })
-		ok := len(nw) == 1 && len(wr) == 1 && len(sm) == 1 && nw[0].Common().Args[0] == ssa.Value(f.Params[2]) && wr[0].Common().Args[1] == ssa.Value(f.Params[1]) && precedes(wr[0], sm[0])
-		c.check(ok, "C04.lifecycle", "poly1305.Sum", f, "New(key).Write(m) then Sum into out", "the one-shot Sum is not New(key), Write(m), Sum")
-	}
-	// key split
-	if f := c.fn(pkg, "initialize"); f != nil {
-		got := map[string]string{}
-		allInstrs(f, func(in ssa.Instruction) {
-			st, ok := in.(*ssa.Store)
-			if !ok {
-				return
-			}
-			p := accessPath(st.Addr)
-			v := st.Val
-			mask := ""
-			if bo, isB := v.(*ssa.BinOp); isB {
-				if k, isK := constInt(bo.Y); isK {
-					mask = fmt.Sprintf("&%#x", uint64(k))
-				}
-				v = bo.X
-			}
-			if cl, isC := v.(*ssa.Call); isC && strings.HasPrefix(short(calleeName(&cl.Call)), "(encoding/binary.littleEndian).Uint64") {
-				if sl, isS := cl.Call.Args[1].(*ssa.Slice); isS && sl.X == ssa.Value(f.Params[0]) {
-					lo, _ := constInt(sl.Low)
-					hi, _ := constInt(sl.High)
-					got[p] = fmt.Sprintf("key[%d:%d]%s", lo, hi, mask)
-				}
-			}
-		})
-		want := map[string]string{"m.r[0]": "key[0:8]&0xffffffc0fffffff", "m.r[1]": "key[8:16]&0xffffffc0ffffffc", "m.s[0]": "key[16:24]", "m.s[1]": "key[24:32]"}
-		bad := ""
-		for k, v := range want {
-			if got[k] != v {
-				bad += fmt.Sprintf("%s = %s (want %s); ", k, got[k], v)
-			}
-		}
-		c.check(bad == "", "C04.key-split", "poly1305.initialize", f, "r = clamp(key[0:16]), s = key[16:32], little-endian", "the key is not split / clamped as RFC 8439 2.5 requires: "+bad)
-	}
+	c04Lifecycle(c, pkg)
+	c04KeySplit(c, pkg)
 }
 
+func c04IsBlockFn(nm string) bool {
+	return strings.HasSuffix(nm, "poly1305.update") || strings.HasSuffix(nm, "poly1305.updateGeneric")
+}
+
+// c04Finalize: for every buffered offset, Sum feeds buffer[:offset] (when
+// there is a remainder) to a COPY of the receiver's state and finalises into
+// out with that copy's h and s. The copy is followed as a value (load of the
+// receiver's state, store into a local), the arguments by the memory they
+// denote, wherever the statements live.
+func c04Finalize(c *Ctx, pkg, name string, f *ssa.Function) {
+	bad := ""
+	recv := f.Params[0]
+	offKey := c04FieldKey(recv, "offset")
+	sp, isMAC := c04StatePath(recv.Type())
+	if offKey == "" || !isMAC || len(f.Params) < 2 {
+		c.check(false, "C04.finalize", pkg+"."+name, f, "", "the receiver has no offset field / embedded state, or Sum has no output parameter")
+		return
+	}
+	for o := int64(0); o <= 15 && bad == ""; o++ {
+		m := newC04Mem(f)
+		m.role[recv], m.role[f.Params[1]] = "h", "out"
+		m.hist["h"+sp] = []string{c04S0}
+		w := &pathWalker{env: newEnv(), lengths: true, maxSteps: 2000, opaque: map[string]bool{"update": true, "updateGeneric": true, "finalize": true}}
+		w.state = map[string]int64{offKey: o}
+		m.install(w)
+		var evs []string
+		w.onCall = func(w *pathWalker, ci ssa.CallInstruction) string {
+			cc := ci.Common()
+			n := short(calleeName(cc))
+			switch {
+			case c04IsBlockFn(n):
+				l, _ := w.env.eval(cc.Args[1])
+				k, okState := m.stateKey(w, cc.Args[0])
+				d := m.ref(w, cc.Args[1])
+				tok := "?"
+				if d.ok && d.obj == ssa.Value(recv) && c04LastField(d.path) == "buffer" && d.off == 0 {
+					tok = fmt.Sprintf("buffer[:%d]", l)
+				}
+				if !okState {
+					evs = append(evs, "update of a state the rule cannot name")
+					return ""
+				}
+				m.hist[k] = append(m.histAt(k), "update("+tok+")")
+			case strings.HasSuffix(n, "poly1305.finalize"):
+				out, hp, sr := m.ref(w, cc.Args[0]), m.ref(w, cc.Args[1]), m.ref(w, cc.Args[2])
+				parent := func(r c04Ref, fld string) string {
+					if !r.ok || c04LastField(r.path) != fld {
+						return "?"
+					}
+					return strings.Join(m.histAt(m.name(r.obj)+r.path[:strings.LastIndex(r.path, ".")]), " ")
+				}
+				dst := "?"
+				if out.ok && out.off == 0 {
+					dst = m.key(out)
+				}
+				evs = append(evs, fmt.Sprintf("finalize(%s, h of [%s], s of [%s])", dst, parent(hp, "h"), parent(sr, "s")))
+			default:
+				if !m.modelBuiltin(w, ci) {
+					if _, isB := cc.Value.(*ssa.Builtin); !isB {
+						m.clobber(w, ci)
+					}
+				}
+			}
+			return ""
+		}
+		if end := w.walk(f.Blocks[0], nil); end != "return" {
+			bad = "evaluation ended with " + end + " " + w.why
+			break
+		}
+		st := c04S0
+		if o > 0 {
+			st = fmt.Sprintf("%s update(buffer[:%d])", c04S0, o)
+		}
+		want := fmt.Sprintf("finalize(out, h of [%s], s of [%s])", st, st)
+		switch {
+		case len(m.notes) > 0:
+			bad = strings.Join(m.notes, "; ")
+		case strings.Join(m.histAt("h"+sp), " ") != c04S0:
+			bad = fmt.Sprintf("offset %d: the receiver's own state becomes [%s]", o, strings.Join(m.histAt("h"+sp), " "))
+		case strings.Join(evs, " ") != want:
+			bad = fmt.Sprintf("offset %d: [%s], expected [%s]", o, strings.Join(evs, " "), want)
+		}
+	}
+	c.check(bad == "", "C04.finalize", pkg+"."+name, f, "the buffered remainder (if any) is the last block, on a copy of the state, then finalize(out, copy.h, copy.s)", bad)
+}
+
+// c04Write: the block-splitting automaton, for every (buffered offset, input
+// length) case. The rule keeps its own count of the bytes the buffer holds and
+// of the input bytes consumed; every copy and every call of the block function
+// is checked against them by the MEMORY its operands denote (the receiver's
+// buffer field at an offset, the input parameter at an offset, the receiver's
+// embedded state), resolved through helpers by c04Mem.
 func c04Write(c *Ctx, pkg, name string, f *ssa.Function) {
-	p := f.Params[1]
+	recv, p := f.Params[0], f.Params[1]
+	offKey := c04FieldKey(recv, "offset")
+	if offKey == "" {
+		c.check(false, "C04.splitting", pkg+"."+name, f, "", "the receiver has no offset field")
+		return
+	}
 	cases, bad := 0, ""
 	for o := int64(0); o <= 15 && bad == ""; o++ {
 		for n := int64(0); n <= 50 && bad == ""; n++ {
+			m := newC04Mem(f)
+			m.role[recv], m.role[p] = "h", "p"
 			w := &pathWalker{env: newEnv(), lengths: true, maxSteps: 4000}
 			w.env.bind(p, n)
-			offKey := fieldPathIn(f, "offset")
 			w.state = map[string]int64{offKey: o}
-			w.off = map[ssa.Value]int64{p: 0}
-			w.onSlice = func(w *pathWalker, sl *ssa.Slice) {
-				if base, ok := w.off[sl.X]; ok {
-					lo := int64(0)
-					if sl.Low != nil {
-						lo, _ = w.env.eval(sl.Low)
-					}
-					w.off[sl] = base + lo
-				}
-			}
-			w.onPhi = func(w *pathWalker, ph *ssa.Phi, in ssa.Value) {
-				if v, ok := w.off[in]; ok {
-					w.off[ph] = v
-				} else {
-					delete(w.off, ph)
-				}
-			}
+			w.onPhi, w.onInline, w.onReturn, w.onExtract = m.onPhi, m.onInline, m.onReturn, m.onExtract
 			consumed := int64(0) // input bytes moved into the buffer or compressed
+			buffered := o        // bytes the buffer holds
 			fed := int64(0)
 			order := ""
 			problem := ""
+			fail := func(s string) {
+				if problem == "" {
+					problem = s
+				}
+			}
+			isBuf := func(r c04Ref) bool {
+				return r.ok && r.obj == ssa.Value(recv) && c04LastField(r.path) == "buffer"
+			}
+			isIn := func(r c04Ref) bool { return r.ok && r.obj == ssa.Value(p) && r.path == "" }
 			w.onCall = func(w *pathWalker, ci ssa.CallInstruction) string {
 				cc := ci.Common()
 				nm := short(calleeName(cc))
 				switch {
-				case strings.HasSuffix(nm, "poly1305.update") || strings.HasSuffix(nm, "poly1305.updateGeneric"):
+				case c04IsBlockFn(nm):
 					l, ok := w.env.eval(cc.Args[1])
 					if !ok || l%16 != 0 || l == 0 {
-						problem = fmt.Sprintf("block function called with %d bytes", l)
+						fail(fmt.Sprintf("block function called with %d bytes", l))
 						return ""
 					}
-					if sl, isS := cc.Args[1].(*ssa.Slice); isS && strings.HasSuffix(accessPath(sl.X), ".buffer") {
+					if st := m.ref(w, cc.Args[0]); !(st.ok && st.obj == ssa.Value(recv) && st.off == 0 && c04AllEmbedded(st.path)) {
+						fail("the block function is applied to something other than the receiver's own state")
+					}
+					switch d := m.ref(w, cc.Args[1]); {
+					case isBuf(d):
 						order += "B"
-						if l != 16 {
-							problem = "the buffer is fed with a length other than 16"
+						if l != 16 || d.off != 0 {
+							fail("the buffer is fed with a length other than 16")
+						} else if buffered != 16 {
+							fail(fmt.Sprintf("the buffer is fed while it holds %d bytes", buffered))
 						}
-					} else if off, isP := w.off[cc.Args[1]]; isP {
+						buffered = 0
+					case isIn(d):
 						order += "P"
-						if off != consumed {
-							problem = fmt.Sprintf("input fed from offset %d while %d input bytes were consumed", off, consumed)
+						if d.off != consumed {
+							fail(fmt.Sprintf("input fed from offset %d while %d input bytes were consumed", d.off, consumed))
 						}
 						consumed += l
-					} else {
-						problem = "block function called on an unrecognised buffer"
+					default:
+						fail("block function called on an unrecognised buffer")
 					}
 					fed += l
 				case nm == "builtin:copy":
-					d, ok1 := w.env.eval(cc.Args[0])
-					s, ok2 := w.env.eval(cc.Args[1])
-					if off, isP := w.off[cc.Args[1]]; isP && ok1 && ok2 {
-						if off != consumed {
-							problem = fmt.Sprintf("input copied from offset %d while %d input bytes were consumed", off, consumed)
+					dl, ok1 := w.env.eval(cc.Args[0])
+					sl, ok2 := w.env.eval(cc.Args[1])
+					d, s := m.ref(w, cc.Args[0]), m.ref(w, cc.Args[1])
+					switch {
+					case isIn(s) && ok1 && ok2:
+						k := min(dl, sl)
+						if s.off != consumed {
+							fail(fmt.Sprintf("input copied from offset %d while %d input bytes were consumed", s.off, consumed))
 						}
-						consumed += min(d, s)
+						if k > 0 && !isBuf(d) {
+							fail("input bytes are copied to something other than the buffer")
+						}
+						if k > 0 && isBuf(d) && d.off != buffered {
+							fail(fmt.Sprintf("input copied to buffer[%d:] while the buffer holds %d bytes", d.off, buffered))
+						}
+						consumed += k
+						if isBuf(d) {
+							buffered += k
+						}
+					case isBuf(d) && !(ok1 && ok2 && min(dl, sl) == 0):
+						fail("the buffer is overwritten from something other than the input")
 					}
 				}
 				return ""
@@ -261,6 +248,8 @@ func c04Write(c *Ctx, pkg, name string, f *ssa.Function) {
 				bad = fmt.Sprintf("%s: offset afterwards %d, expected %d", id, w.state[offKey], T%16)
 			case consumed != n:
 				bad = fmt.Sprintf("%s: %d of the %d input bytes consumed", id, consumed, n)
+			case buffered != T%16:
+				bad = fmt.Sprintf("%s: the buffer holds %d bytes afterwards, expected %d", id, buffered, T%16)
 			case ret != n:
 				bad = fmt.Sprintf("%s: returns %d", id, ret)
 			case strings.Contains(order, "PB"):
@@ -273,17 +262,125 @@ func c04Write(c *Ctx, pkg, name string, f *ssa.Function) {
 	c.check(bad == "" && cases == 16*51, "C04.splitting", pkg+"."+name, f, fmt.Sprintf("%d (offset, length) cases: 16*floor((offset+len)/16) bytes fed in stream order, remainder buffered", cases), bad)
 }
 
-// fieldPathIn: the access path under which fn addresses the field named name
-// of its receiver (embedding makes it "h.macGeneric.offset" in one type and
-// "h.offset" in the other).
-func fieldPathIn(fn *ssa.Function, name string) string {
-	out := ""
-	allInstrs(fn, func(in ssa.Instruction) {
-		if fa, ok := in.(*ssa.FieldAddr); ok && out == "" {
-			if _, fld, _, okf := fieldOf(fa); okf && fld == name {
-				out = accessPath(fa)
+// c04FieldPath: the chain of embedded structs from (pointer to) struct type t
+// down to the struct that declares the field, then the field: embedded steps
+// are written sep+emb+name. ok is false when no such field is reachable.
+func c04FieldPath(t types.Type, field, emb string) (string, bool) {
+	if p, ok := t.Underlying().(*types.Pointer); ok {
+		t = p.Elem()
+	}
+	path := ""
+	for depth := 0; depth < 8; depth++ {
+		st, ok := t.Underlying().(*types.Struct)
+		if !ok {
+			return "", false
+		}
+		next := -1
+		for i := 0; i < st.NumFields(); i++ {
+			if st.Field(i).Name() == field {
+				return path + "." + field, true
+			}
+			if next < 0 && st.Field(i).Embedded() {
+				if _, isS := st.Field(i).Type().Underlying().(*types.Struct); isS {
+					next = i
+				}
 			}
 		}
-	})
-	return out
+		if next < 0 {
+			return "", false
+		}
+		path += "." + emb + st.Field(next).Name()
+		t = st.Field(next).Type()
+	}
+	return "", false
+}
+
+// c04FieldKey: the path-walker state key of a field of the receiver, from the
+// receiver's TYPE (embedding makes it "h.macGeneric.offset" in one type and
+// "h.offset" in the other) and its actual name — whether or not the function
+// itself touches the field.
+func c04FieldKey(recv *ssa.Parameter, field string) string {
+	p, ok := c04FieldPath(recv.Type(), field, "")
+	if !ok {
+		return ""
+	}
+	return recv.Name() + p
+}
+
+// c04KeySplit: New(key) is interpreted on concrete key bytes; the r, s limbs
+// of the state it returns are compared with RFC 8439 section 2.5 computed
+// here. Reads of the key may be binary.LittleEndian loads or byte arithmetic,
+// in New, in initialize, or in any helper.
+func c04KeySplit(c *Ctx, pkg string) {
+	f := c.fn(pkg, "New")
+	if f == nil {
+		return
+	}
+	var at poser = f
+	if g := c.fnOpt(pkg, "initialize"); g != nil {
+		at = g
+	}
+	var ones, count [32]byte
+	for i := range ones {
+		ones[i] = 0xff
+		count[i] = byte(17*i + 3)
+	}
+	keys := [][32]byte{ones, count} // the all-ones key first: it shows the masks as they are
+	names := []string{"an all-ones key", "a counting-pattern key"}
+	for i := 0; i < 32; i++ {
+		var k [32]byte
+		k[i] = 0xff
+		keys = append(keys, k)
+		names = append(names, fmt.Sprintf("key byte %d = 0xff, others 0", i))
+	}
+	le := func(b []byte) uint64 {
+		var v uint64
+		for i := 0; i < 8; i++ {
+			v |= uint64(b[i]) << (8 * uint(i))
+		}
+		return v
+	}
+	bad := ""
+	for ki, k := range keys {
+		k := k
+		r := c04Interp(f, []string{"key"}, nil, func(m *c04Mem) {
+			for i := 0; i < 32; i++ {
+				m.scalar["key["+itoa(int64(i))+"]"] = optInt{int64(k[i]), true}
+			}
+		}, 0, "openInit")
+		if p := r.problems(); p != "" || r.end != "return" || r.retVal(0) == nil {
+			bad = "New: " + p + " (ends with " + r.end + ")"
+			break
+		}
+		ref := r.mem.ref(r.w, r.retVal(0))
+		sp, isMAC := c04StatePath(r.retVal(0).Type())
+		if !ref.ok || !isMAC {
+			bad = "New does not return a MAC the rule can follow"
+			break
+		}
+		obj := r.mem.key(ref)
+		want := map[string]uint64{
+			"r[0]": le(k[0:8]) & 0x0FFFFFFC0FFFFFFF, "r[1]": le(k[8:16]) & 0x0FFFFFFC0FFFFFFC,
+			"s[0]": le(k[16:24]), "s[1]": le(k[24:32]), "h[0]": 0, "h[1]": 0, "h[2]": 0,
+		}
+		for _, fld := range []string{"r[0]", "r[1]", "s[0]", "s[1]", "h[0]", "h[1]", "h[2]"} {
+			got, ok := r.mem.scalarAt(obj + sp + "." + fld)
+			if !ok {
+				bad += fmt.Sprintf("%s is not determined by the key (%s); ", fld, names[ki])
+			} else if uint64(got) != want[fld] {
+				bad += fmt.Sprintf("%s = %#016x, expected %#016x, for %s; ", fld, uint64(got), want[fld], names[ki])
+			}
+		}
+		for _, fld := range []string{"offset", "finalized"} {
+			if fp, ok := c04FieldPath(r.retVal(0).Type(), fld, "^"); ok {
+				if got, okv := r.mem.scalarAt(obj + fp); !okv || got != 0 {
+					bad += fmt.Sprintf("a new MAC starts with %s = %d; ", fld, got)
+				}
+			}
+		}
+		if bad != "" {
+			break
+		}
+	}
+	c.check(bad == "", "C04.key-split", "poly1305.New / initialize", at, fmt.Sprintf("r = clamp(key[0:16]), s = key[16:32], little-endian, h = 0 (%d test keys)", len(keys)), "the key is not split / clamped as RFC 8439 2.5 requires: "+bad)
 }
